@@ -272,7 +272,8 @@ func runSeq(p *DPlan, system string, keepLog bool, prefix string) seqResult {
 		// Barrier cannot bring the data back (the kernel marked the pages
 		// clean), so they are unconstrained until they are written again
 		lostOK := map[uint64]bool{}
-		lostLen := false
+		lostLen := false // (the file's length is metadata and survives a failed data flush)
+		barrierFailed := false
 		r := s.Run(func() {
 			var d disk.Disk
 			var err error
@@ -426,6 +427,10 @@ func runSeq(p *DPlan, system string, keepLog bool, prefix string) seqResult {
 						sinceBarrier = map[uint64]bool{}
 					}
 					switch {
+					case pan && f == nil && barrierFailed:
+						// an earlier Barrier reported a failed flush: a disk that keeps
+						// refusing to call itself flushed is stricter than required, not wrong
+						res.probes = addProbe(res.probes, "barrier_refused_after_reported_failure")
 					case pan && f == nil:
 						fail(prefix+".refusal", "", fmt.Sprintf("op %d: Barrier panicked without a fault: %s", oi, msg))
 						return
@@ -433,11 +438,11 @@ func runSeq(p *DPlan, system string, keepLog bool, prefix string) seqResult {
 						// the failure surfaced. After EIO the kernel has dropped what
 						// was dirty: the loss is reported, those blocks are
 						// unconstrained until written again
+						barrierFailed = true
 						if f.Kind == "errno" && f.Errno != int(simunix.EINTR) {
 							for j := range sinceBarrier {
 								lostOK[j] = true
 							}
-							lostLen = true // a pending change of the file's length is dropped with the data
 						}
 					default:
 						// Barrier returned normally -- with or without a failing
@@ -450,6 +455,9 @@ func runSeq(p *DPlan, system string, keepLog bool, prefix string) seqResult {
 							for _, b := range k.VolatileBlocks(path, model.BlockSize) {
 								if b < 0 && lostLen {
 									continue
+								}
+								if b >= 0 && b < int64(len(cur)) && !cur[b].known {
+									continue // a Write to this block failed and said so: its content is nobody's promise
 								}
 								if b < 0 || !lostOK[uint64(b)] {
 									at = b
